@@ -575,6 +575,9 @@ pub async fn run_dataset(seed: u64, d: usize, n_queries: usize, only_query: Opti
             }
         }
         let case = gen_query(&mut qr, &env);
+        if !finite_window(&visible_filters(&case)) {
+            report.bump("e2e.generator.window_not_recognised");
+        }
         let sql = unit_sql(&case);
         let (out, reference) = check_query(&env, &warm, &sql, q % 4 == 0 || only_query.is_some(), model, report).await;
         report.impl_runs += 1;
@@ -607,11 +610,16 @@ pub async fn run_dataset(seed: u64, d: usize, n_queries: usize, only_query: Opti
             all_ok = false;
             // shrink the WHERE clause while the answers still differ
             let mut cur = case.clone();
-            let mut budget = 40;
+            // shrink the first few failures only (each attempt runs fresh nodes)
+            let mut budget = if report.oracle_violations.len() < 4 { 40 } else { 0 };
             let mut progress = true;
             while progress && budget > 0 {
                 progress = false;
                 for cand in shrink_unit(&cur) {
+                    // stay inside the property: the WHERE clause must still confine the timestamp
+                    if !finite_window(&visible_filters(&cand)) {
+                        continue;
+                    }
                     budget -= 1;
                     let s = unit_sql(&cand);
                     let (o, _) = check_query(&env, &warm, &s, true, model, report).await;
@@ -752,8 +760,7 @@ pub async fn replay(case: &serde_json::Value, model: &mut Model) -> i32 {
 /// concrete dataset (one row per chunk at and around the literals)?
 pub async fn oracle_for_unit(case: &UnitCase) -> bool {
     let fs = visible_filters(case);
-    // a statement that never mentions the timestamp is outside the property (last-hour default by design)
-    if fs.is_empty() || !fs.iter().any(|f| f.mentions_ts()) {
+    if fs.is_empty() {
         return false;
     }
     let mut lits = Vec::new();
@@ -802,10 +809,28 @@ pub async fn oracle_for_unit(case: &UnitCase) -> bool {
         let _ = &mut rng;
         Env { cfg, rows, vals: ts.clone(), store, metadata, storage, reference, chunks: ts.len(), compaction_result: "none".into() }
     };
-    let where_ = fs.iter().map(|f| f.sql()).collect::<Vec<_>>().join(" AND ");
-    let sql = format!("SELECT value_i64 FROM metrics WHERE {}", where_);
     let node = new_node(&env, false).await;
-    let a = run_node(&node, &sql).await;
-    let b = run_reference(&env, &sql).await;
-    !same(&a, &b)
+    // bind the data schema first (keeps the known empty-selection class out of this probe)
+    let _ = run_node(&node, "SELECT count(*) AS n FROM metrics WHERE timestamp BETWEEN -9223372036854775807 AND 9223372036854775806").await;
+    let lo = ts.first().copied().unwrap_or(0).saturating_sub(2);
+    let hi = ts.last().copied().unwrap_or(0).saturating_add(2);
+    let all = fs.iter().map(|f| f.sql()).collect::<Vec<_>>().join(" AND ");
+    // inside the property as it is, or completed to a finite window that keeps every row
+    let candidates: Vec<String> = if finite_window(&fs) {
+        vec![all]
+    } else {
+        vec![
+            format!("({}) AND timestamp BETWEEN {} AND {}", all, lo, hi),
+            format!("timestamp >= {} AND ({}) AND timestamp <= {}", lo, all, hi),
+        ]
+    };
+    for where_ in candidates {
+        let sql = format!("SELECT value_i64 FROM metrics WHERE {}", where_);
+        let a = run_node(&node, &sql).await;
+        let b = run_reference(&env, &sql).await;
+        if !same(&a, &b) {
+            return true;
+        }
+    }
+    false
 }
